@@ -69,17 +69,26 @@ Hypothesis FR_accuracy : forall p r, FR (fun x => Rerf x - p) (- (10)) 10 (1 / 1
 
 Lemma inv_erf_R p : inv_erf ROps FR p =
   if Rlt_dec (Rabs (p - 1)) (1 / 10000000000000000) then Ok 10
+  else if Rlt_dec (Rabs (p + 1)) (1 / 10000000000000000) then Ok (- (10))
   else if Rle_dec 1 (Rabs p) then Exit
   else FR (fun x => Rerf x - p) (- (10)) 10 (1 / 10000).
 Proof.
   unfold inv_erf. cbn. unfold Rltb, Rleb.
-  destruct (Rlt_dec _ _); [reflexivity|]. destruct (Rle_dec _ _); reflexivity.
+  destruct (Rlt_dec _ _); [reflexivity|]. destruct (Rlt_dec _ _); [reflexivity|]. destruct (Rle_dec _ _); reflexivity.
 Qed.
 
-(** the guards: |p| >= 1 exits (unless p is within 1e-16 of 1, where 10 is returned with a warning) *)
-Lemma inv_erf_guard p : 1 <= Rabs p -> 1 / 10000000000000000 <= Rabs (p - 1) -> inv_erf ROps FR p = Exit.
+(** the guards: |p| >= 1 exits (unless p is within 1e-16 of 1 or of -1, where 10 resp. -10 is returned with a warning) *)
+Lemma inv_erf_guard p : 1 <= Rabs p -> 1 / 10000000000000000 <= Rabs (p - 1) -> 1 / 10000000000000000 <= Rabs (p + 1) ->
+  inv_erf ROps FR p = Exit.
 Proof.
-  intros H1 H2. rewrite inv_erf_R. destruct (Rlt_dec _ _); [lra|]. destruct (Rle_dec _ _); [reflexivity|lra].
+  intros H1 H2 H3. rewrite inv_erf_R. destruct (Rlt_dec _ _); [lra|]. destruct (Rlt_dec _ _); [lra|].
+  destruct (Rle_dec _ _); [reflexivity|lra].
+Qed.
+Lemma inv_erf_minus_one : inv_erf ROps FR (- (1)) = Ok (- (10)).
+Proof.
+  rewrite inv_erf_R. replace (- (1) - 1) with (- (2)) by ring. rewrite Rabs_Ropp, (Rabs_pos_eq 2) by lra.
+  destruct (Rlt_dec _ _); [lra|]. replace (- (1) + 1) with 0 by ring. rewrite Rabs_R0.
+  destruct (Rlt_dec _ _); [reflexivity|lra].
 Qed.
 Lemma inv_erf_one : inv_erf ROps FR 1 = Ok 10.
 Proof.
@@ -88,10 +97,11 @@ Qed.
 
 (** accuracy: for -1 < p < 1 not within 1e-16 of 1 (every double in (-1,1) qualifies: 1 - 2^-53 is 1.1e-16 below 1),
     whatever Inv_Erf returns is within 1e-4 of the z with erf z = p, i.e. of erfinv p *)
-Theorem inv_erf_accuracy p r z : -1 < p < 1 -> 1 / 10000000000000000 <= Rabs (p - 1) ->
+Theorem inv_erf_accuracy p r z : -1 < p < 1 -> 1 / 10000000000000000 <= Rabs (p - 1) -> 1 / 10000000000000000 <= Rabs (p + 1) ->
   inv_erf ROps FR p = Ok r -> Rerf z = p -> Rabs (r - z) <= 1 / 10000.
 Proof.
-  intros Hp Hp1 H Hz. rewrite inv_erf_R in H.
+  intros Hp Hp1 Hp2 H Hz. rewrite inv_erf_R in H.
+  destruct (Rlt_dec _ _) as [C|_]; [lra|].
   destruct (Rlt_dec _ _) as [C|_]; [lra|].
   destruct (Rle_dec _ _) as [C|_]; [discriminate|].
   destruct (FR_accuracy p r H) as [Z|(x1 & x2 & A1 & A2 & A3 & S & Hr & W)].
@@ -109,8 +119,13 @@ Qed.
 End InvErf.
 
 (** non-vacuity: p = 0 is in range and erf 0 = 0 *)
-Example inv_erf_example : -1 < 0 < 1 /\ 1 / 10000000000000000 <= Rabs (0 - 1) /\ Rerf 0 = 0.
-Proof. repeat split; try lra. - replace (0 - 1) with (- (1)) by ring. rewrite Rabs_Ropp, Rabs_R1. lra. - apply Rerf_0. Qed.
+Example inv_erf_example : -1 < 0 < 1 /\ 1 / 10000000000000000 <= Rabs (0 - 1) /\ 1 / 10000000000000000 <= Rabs (0 + 1) /\ Rerf 0 = 0.
+Proof.
+  repeat split; try lra.
+  - replace (0 - 1) with (- (1)) by ring. rewrite Rabs_Ropp, Rabs_R1. lra.
+  - replace (0 + 1) with 1 by ring. rewrite Rabs_R1. lra.
+  - apply Rerf_0.
+Qed.
 
 (** the iteration caps the source has had satisfy the side condition *)
 Example cap_50_ok : (10 - - (10)) / 2 ^ 50 < 1 / 10000.
